@@ -119,6 +119,14 @@ func (_this *RootObjectIterator) addLocalReference(v reflect.Value) (didGenerate
 		return false
 	}
 
+	switch v.Kind() {
+	case reflect.Ptr, reflect.Slice, reflect.Map:
+	default:
+		// Only these kinds can be shared or cyclic (arrays are values, and
+		// have no pointer identity).
+		return false
+	}
+
 	ptr := duplicates.TypedPointerOfRV(v)
 	if !_this.foundReferences[ptr] {
 		return false
